@@ -328,7 +328,17 @@ def observe(spec, entry, res):
         return _frames_verdict(spec, per, [np.asarray(m.coords, dtype=float) for m in res], "conformer")
     if not isinstance(res, RCLASS[cname]):
         return [("wrong-result-type", f"{type(res).__name__}")]
-    return cmp_frame(spec, 0, res.name, res.atoms, res.coords, getattr(res, "atomic_charges", None), res.bonds, want_q)
+    args = (res.name, res.atoms, res.coords, getattr(res, "atomic_charges", None), res.bonds, want_q)
+    if k == 1:
+        return cmp_frame(spec, 0, *args)
+    # a first-molecule reader on a multi-molecule text is judged for SELECTION only: the data-level
+    # clauses are judged where a reader returns everything it was given (k = 1, all-molecule readers)
+    if not cmp_frame(spec, 0, *args):
+        return []
+    for j in range(1, k):
+        if not cmp_frame(spec, j, *args):
+            return [("first-molecule-reader-returned-a-later-conformer", f"conformer {j} of {k} returned instead of conformer 0")]
+    return []
 
 
 def _frames_verdict(spec, per, got_coords, word):
@@ -364,6 +374,13 @@ ATOM_COLS = ["id", "label", "x", "y", "z", "type", "subst_id", "subst_name", "ch
 BOND_COLS = ["id", "a1", "a2", "type"]
 
 
+def _same_number(x, y):
+    try:
+        return float(x) == float(y)
+    except ValueError:
+        return False
+
+
 def classify_text_diff(t1: str, t2: str):
     """-> sorted list of symptom classes (empty when identical)"""
     if t1 == t2:
@@ -391,7 +408,12 @@ def classify_text_diff(t1: str, t2: str):
             for c, (x, y) in enumerate(zip(fa, fb)):
                 if x != y:
                     col = ATOM_COLS[c]
-                    out.add(f"ATOM.type[{tokclass(x)}->{tokclass(y)}]" if col == "type" else f"ATOM.{col}")
+                    if col == "type":
+                        out.add(f"ATOM.type[{tokclass(x)}->{tokclass(y)}]")
+                    elif col in ("x", "y", "z", "charge") and _same_number(x, y):
+                        out.add(f"ATOM.{col}[same-number-written-differently]")
+                    else:
+                        out.add(f"ATOM.{col}")
         elif section == "BOND" and len(fa) == len(fb) and len(fa) <= len(BOND_COLS):
             for c, (x, y) in enumerate(zip(fa, fb)):
                 if x != y:
@@ -419,8 +441,21 @@ def _desc(names, universe):
     return ",".join(out + rest)
 
 
-def emit_matrix(ctx, spec, cells, detail):
-    """cells: {symptom: set((writer, reader))}"""
+def is_first_reader(r):
+    return not r.startswith("ConformerEnsemble.") and "all" not in r
+
+
+def reader_universe(sym, k):
+    """the readers that can show symptom `sym` on a text of k molecules (see observe)"""
+    if k == 1 or sym.startswith(("read-raised", "wrong-result-type")):
+        return READERS
+    if sym.startswith("first-molecule-reader"):
+        return [r for r in READERS if is_first_reader(r)]
+    return [r for r in READERS if not is_first_reader(r)]
+
+
+def emit_matrix(ctx, spec, cells, detail, writers_ok):
+    """cells: {symptom: set((writer, reader))}; "w=*" = every writer entry that produced a text"""
     kn = KINDNAME[spec["kind"]]
     for sym in sorted(cells):
         cs = cells[sym]
@@ -428,7 +463,7 @@ def emit_matrix(ctx, spec, cells, detail):
         rs = sorted({r for _, r in cs})
         groups = [(ws, rs)] if cs == set(itertools.product(ws, rs)) else [([w], [r]) for w, r in sorted(cs)]
         for gw, gr in groups:
-            sig = f"rt|{kn}|{sym}|w={_desc(gw, WRITERS)}|r={_desc(gr, READERS)}"
+            sig = f"rt|{kn}|{sym}|w={_desc(gw, writers_ok)}|r={_desc(gr, reader_universe(sym, len(spec['frames'])))}"
             ctx.violation(
                 sig,
                 f"{kn} written by {gw[0]} and read by {gr[0]}: {detail.get((sym, gw[0], gr[0]), detail.get(sym, sym))}",
@@ -549,7 +584,7 @@ def check_spec(ctx, spec):
                 detail.setdefault(s, f"second write differs from the first ({cl})")
     ctx.outcome((digest(sorted(texts)), tuple(sorted(cells)), tuple(sorted(wfail))))
     if cells:
-        emit_matrix(ctx, spec, cells, detail)
+        emit_matrix(ctx, spec, cells, detail, sorted(w for ws in texts.values() for w in ws))
     clear_bond_cache()
     return texts
 
@@ -557,11 +592,11 @@ def check_spec(ctx, spec):
 # =================================================================================================
 # alphabets of the small-scope layers
 # =================================================================================================
-NAMES = ["m", "a b", "#c", "x_1-2", "1", "été"]  # one-line names (no leading/trailing blank, not empty)
+NAMES = ["m", "a b", "#c", "x_1-2", "1", "Name-9"]  # one-line names (no leading/trailing blank, not empty)
 LABELS = [None, "", "C", "x", "L2345678", "7", "C.ar"]  # whitespace-free labels (+ the two "empty" ones)
 # coordinate values of DESIGN C07 (c) plus two half-way cases
 CVALS = [0.0, -0.0000004, 1.5, -123456.789, 1e7, NAN, 0.1234565, 99999.9999995]
-CHARGES = [0.0, 0.0004, -0.0005, 1.2345, -12.5]
+CHARGES = [0.0, 0.0004, -0.0005, 1.2345, -12.5, -0.0004]
 REG, UNKG = int(AtomType.Regular), int(AtomGeom.Unknown)
 EL_SMALL = [6, 0, 118]  # C, Unknown, Og
 BT = {b.name: int(b) for b in BondType}
@@ -584,18 +619,24 @@ def gen_S0(seed, thorough):
 
 def gen_S1(seed, thorough):
     """one atom: name x label x coordinate triple x charge x element x kind"""
-    els = [int(e) for e in Element] if thorough else EL_SMALL
     names = rot(NAMES, seed)
-    if thorough:
-        names = names[:2]
-    for name in names:
+    tr = triples(seed)
+    for ni, name in enumerate(names):
         for lab in rot(LABELS, seed):
-            for p in triples(seed):
-                for q in rot(CHARGES, seed):
-                    for z in els:
+            # quick: the name (a line of its own) is crossed with the label only; thorough: with everything
+            for p in tr if (thorough or ni == 0) else tr[:1]:
+                for q in rot(CHARGES, seed) if (thorough or ni == 0) else CHARGES[3:4]:
+                    for z in EL_SMALL if (thorough or ni == 0) else EL_SMALL[:1]:
                         for kind in ("M", "S", "E"):
                             yield mkspec(kind, name, [(z, lab, REG, UNKG)], [{"xyz": [p], "q": [q]}], [])
     if thorough:
+        # every element
+        for lab in rot(LABELS, seed):
+            for p in triples(seed):
+                for q in rot(CHARGES, seed):
+                    for z in [int(e) for e in Element if int(e) not in EL_SMALL]:
+                        for kind in ("M", "S", "E"):
+                            yield mkspec(kind, names[0], [(z, lab, REG, UNKG)], [{"xyz": [p], "q": [q]}], [])
         # independent axes: every ordered triple of the coordinate values
         for p in itertools.product(CVALS, repeat=3):
             for q in CHARGES:
@@ -659,10 +700,19 @@ def gen_S3(seed, thorough):
     pairs = [(0, 1), (0, 2), (1, 2)]
     for r in range(0, 4):
         for sub in itertools.combinations(pairs, r):
-            per_bond = [[(i, j, BT[t]) for t in types] + [(j, i, BT[t]) for t in types] for (i, j) in sub]
-            for bonds in itertools.product(*per_bond):
-                kinds = ("M", "S", "E") if (thorough or r < 3) else ("M",)
-                for kind in kinds:
+            if thorough or r < 3:
+                per_bond = [[(i, j, BT[t]) for t in types] + [(j, i, BT[t]) for t in types] for (i, j) in sub]
+                combos = itertools.product(*per_bond)
+            else:
+                # quick tier, all three bonds present: the 8 expressible types per bond x 3 endpoint-order patterns
+                ty = [t for t in types if t in EXPRESSIBLE]
+                combos = (
+                    tuple((i, j, BT[t]) if fwd else (j, i, BT[t]) for (i, j), t, fwd in zip(sub, ts, pat))
+                    for ts in itertools.product(ty, repeat=3)
+                    for pat in ((True, True, True), (False, False, False), (True, False, True))
+                )
+            for bonds in combos:
+                for kind in ("M", "S", "E"):
                     yield mkspec(kind, "s3", atoms, [{"xyz": xyz, "q": q}], list(bonds))
 
 
@@ -768,6 +818,11 @@ def tb_spec(kind, trs, seed, bonded=False):
     return mkspec(kind, "typing", atoms, [{"xyz": xyz, "q": q}], bonds)
 
 
+def hash_pair(trs):
+    (z1, t1, g1), (z2, t2, g2) = trs
+    return ((((z1 * 1000 + t1) * 100 + g1) * 1000 + z2) * 1000 + t2) * 100 + g2
+
+
 def atom_type_column(text):
     out, on = [], False
     for line in text.split("\n"):
@@ -827,8 +882,13 @@ def check_tb(ctx, kind, trs, seed, bonded=False):
                 typing_violation(ctx, x, f"rewritten-as[{tokclass(y)}]", f"through {kn} text: atom {i} type {x!r} is written as {y!r} by the second write: not a fixed point", case)
     else:
         ctx.violation(f"typing-text|{kn}|atom-lines-changed", "second write has a different number of atom lines", case)
-    ctx.nontrivial(("TB", digest(case)))
-    ctx.outcome(("TB", digest(col1), digest(col2)))
+    if bonded:
+        # pair layer: ~10^6 cases - keep the bookkeeping small (an int per case, outcome = classes)
+        ctx.nontrivial(hash_pair(trs))
+        ctx.outcome(("TB2", tuple(tokclass(x) for x in col1), tuple(tokclass(y) for y in col2)))
+    else:
+        ctx.nontrivial(("TB", digest(case)))
+        ctx.outcome(("TB", digest(col1), digest(col2)))
     clear_bond_cache()
 
 
